@@ -260,6 +260,7 @@ class QVCalc(Calculator):
     style 'keyed'   : tags every result dict with the digest of the configuration it was
                       computed for and checks, whenever a result is handed out, that the
                       queried atoms have that digest (misattributions are recorded).
+    style 'ondemand': like 'plain', but forces are computed (and present in the results) only when asked for.
     style 'peratom' : keeps a per-atom table rebuilt only when 'numbers' is among the
                       system changes (like ASE's EMT / LennardJones neighbour tables) and
                       raises when the table length disagrees with the atoms it is given.
@@ -292,7 +293,11 @@ class QVCalc(Calculator):
                     f"per-atom table sized for {len(self._table)} atoms, got {len(self.atoms)}"
                 )
         e, f = self.energy_forces(self.atoms)
-        self.results = {"energy": float(e), "forces": np.asarray(f, dtype=float)}
+        if self.style == "ondemand" and "forces" not in properties:
+            # like an electronic-structure code: forces only when somebody asks for them
+            self.results = {"energy": float(e)}
+        else:
+            self.results = {"energy": float(e), "forces": np.asarray(f, dtype=float)}
         self.results.update(self.extra_results(self.atoms))
         if self.style == "keyed":
             self.results["qv_key"] = config_key(self.atoms)
